@@ -27,6 +27,12 @@ OrderOK(s, out) ==
   LET N(x) == (CHOOSE y \in out : y.o = x.o /\ y.kind = x.kind).n IN
   \A i, j \in DOMAIN s : (i < j /\ s[i].o[1] = s[j].o[1] /\ s[i].o[2] = s[j].o[2]) => N(s[i]) < N(s[j])
 
+\* after a shell action the host inspects the command (run to quiescence, outputs matched) -- unless
+\* the driver batched this action with the next one ("notake"): then nothing runs in between
+After == IF "notake" \in DOMAIN Line
+         THEN l' = l + 1 /\ UNCHANGED <<ph, progs>>
+         ELSE ph' = "take" /\ UNCHANGED <<l, progs>>
+
 Act ==
   /\ ph = "act" /\ l <= Len(Rec)
   /\ \/ /\ Line.e = "case"
@@ -40,14 +46,14 @@ Act ==
         /\ Line.o \in DOMAIN reqs
         /\ ResolveResult(Line.o) = Line.res
         /\ \E al \in Aliases(Line.o) : Resolve(Line.o, Line.val, al)
-        /\ ph' = "take" /\ UNCHANGED <<l, progs>>
+        /\ After
      \/ /\ Line.e = "drop"
         /\ Line.o \in DOMAIN reqs
         /\ \E al \in Aliases(Line.o) : DropReq(Line.o, al)
-        /\ ph' = "take" /\ UNCHANGED <<l, progs>>
+        /\ After
      \/ /\ Line.e = "abort"
         /\ AbortCmd(Line.c)
-        /\ ph' = "take" /\ UNCHANGED <<l, progs>>
+        /\ After
 
 Silent == ph = "take" /\ Internal /\ UNCHANGED tvars
 
